@@ -12,7 +12,7 @@ KINDS = {
     "C14": ["CatalogueLostOnRestart", "DeletedStillListed", "CatalogueDiffers", "CatalogueMetadataDiffers", "CreateFailed",
             "DeleteFailed", "RestartFailed", "NodeDied", "ViewError"],
     "C20": ["MembersLostOnRestart", "RemovedStillListed", "MemberMissing", "AddressWrong", "JoinFailed", "RestartFailed", "NodeDied",
-            "SearchUnavailable"],      # every node up, a search through some node fails: a peer hosting a partition is not reached
+            "SearchUnavailable", "PeerUnreachable"],      # every node up, a search through some node fails: a peer hosting a partition is not reached
 }
 SCENARIOS = ["basic", "wiring", "snapshot", "leave", "lagging", "lagging-leave", "joinfail", "lagging-replicas", "joincrash", "rejoin", "leave-boot"]
 
@@ -26,7 +26,7 @@ def run_scenarios(ctx, repeat, scenarios=None):
         work = ctx.path("cl-%d" % i)
         tr = ctx.path("cl-%d.ndjson" % i)
         try:
-            p = subprocess.run([clus, node, work, tr, sc], stdout=subprocess.PIPE, stderr=subprocess.PIPE, timeout=240, env=vlib.goenv())
+            p = subprocess.run([clus, node, work, tr, sc], stdout=subprocess.PIPE, stderr=subprocess.PIPE, timeout=420, env=vlib.goenv())
         except subprocess.TimeoutExpired:
             pass
         lines = [x for x in open(tr).read().splitlines() if x.strip()] if os.path.exists(tr) else []
